@@ -7,6 +7,7 @@ package vsched
 import (
 	"fmt"
 	"hash/fnv"
+	"runtime"
 	"runtime/debug"
 	"sort"
 	"strconv"
@@ -798,20 +799,59 @@ func (x *Exec) release(o option) {
 	if t.op == opChoose {
 		chosen = o.val
 	}
-	x.apply(o)
-	if o.partner != nil {
-		p := o.partner
-		p.state = 0
-		p.op = opNone
-		x.running++
-		p.wake <- wakeMsg{chosen: o.pci}
+	// A select with a default clause does not wait: when its chosen case is a rendezvous on an unbuffered channel,
+	// the other side must really be queued on the channel before the select runs, or the default clause wins the
+	// race in the Go runtime although the scheduler decided otherwise.
+	var ch hchan
+	tSends := false
+	if o.partner != nil && t.op == opChan && o.ci >= 0 && o.ci < len(t.cases) {
+		ch, tSends = t.cases[o.ci].ch, t.cases[o.ci].send
 	}
+	tDef, pDef := t.hasDef, o.partner != nil && o.partner.hasDef
+	x.apply(o)
 	t.state = 0
 	t.op = opNone
 	t.idle = false
 	x.cur = t
 	x.running++
-	t.wake <- wakeMsg{chosen: chosen}
+	if o.partner == nil {
+		t.wake <- wakeMsg{chosen: chosen}
+		return
+	}
+	p := o.partner
+	p.state = 0
+	p.op = opNone
+	x.running++
+	first, second := p, t
+	firstMsg, secondMsg := wakeMsg{chosen: o.pci}, wakeMsg{chosen: chosen}
+	ordered, waitSender := false, false
+	switch {
+	case tDef && !pDef && ch != nil:
+		ordered, waitSender = true, !tSends // the partner, who does the opposite operation, goes first
+	case pDef && !tDef && ch != nil:
+		first, second, firstMsg, secondMsg = t, p, secondMsg, firstMsg
+		ordered, waitSender = true, tSends
+	}
+	if !ordered {
+		first.wake <- firstMsg
+		second.wake <- secondMsg
+		return
+	}
+	// not on this goroutine: it may be the very thread that has to go and queue itself on the channel
+	go func() {
+		first.wake <- firstMsg
+		for i := 0; i < 400000; i++ {
+			if waitSender && hcSendWaiter(ch) || !waitSender && hcRecvWaiter(ch) || hcClosed(ch) {
+				break
+			}
+			if i < 1000 {
+				runtime.Gosched()
+			} else {
+				time.Sleep(25 * time.Microsecond)
+			}
+		}
+		second.wake <- secondMsg
+	}()
 }
 
 func (x *Exec) allIdle() bool {
